@@ -56,6 +56,36 @@ def fp(x):
     return repr(x)
 
 
+def fp_defs(x):
+    """Fingerprint of the DEFINITIONS of the Python-side operations with unbound parameters in the circuits reachable from x (a composite
+    gate from to_gate()/to_instruction(), a controlled composite, an evolution gate with a symbolic time...): `fp` shows their parameter
+    list only, but binding such an operation in place rewrites its parameter list AND its definition.  Only symbolic operations are
+    descended into (through the public `.definition`, so that a lazily built definition reads the same before and after): whether some
+    other operation has its definition cached yet is not a property of the circuit."""
+    from qiskit.circuit import QuantumCircuit, ParameterExpression
+
+    def op_def(op, depth=0):
+        d = [op.name, [repr(p) for p in op.params]]
+        if depth < 6 and getattr(op, "_standard_gate", None) is None and any(isinstance(p, ParameterExpression) for p in op.params):
+            try:
+                body = op.definition
+            except Exception as ex:  # a definition that cannot be built is a fact about the operation, too
+                body = None
+                d.append("no definition: " + type(ex).__name__)
+            if body is not None:
+                d.append([(op_def(i.operation, depth + 1), [body.find_bit(q).index for q in i.qubits]) for i in body.data])
+        return d
+    if isinstance(x, QuantumCircuit):
+        return repr([op_def(i.operation) for i in x.data])
+    if isinstance(x, dict):
+        return repr({repr(k): fp_defs(v) for k, v in x.items()})
+    if isinstance(x, (list, tuple)):
+        return repr([fp_defs(v) for v in x])
+    if hasattr(x, "subcircuits") and hasattr(x, "bases"):
+        return fp_defs(x.subcircuits)
+    return ""
+
+
 def mutables(x, acc, keep, path="$", allp=None):
     """id -> path of the mutable Python objects reachable from x (objects are appended to `keep` so that they stay alive);
     `allp`, if given, receives every path under which an object is reachable (id -> [paths])"""
